@@ -15,7 +15,7 @@ import (
 func init() {
 	register(&Property{
 		ID:          "C03",
-		Explanation: "Structural necessary conditions of the rate bound. R1: in the limiter's consume routine every path from entry to the bucket set's Consume passes a TTLMap.Set of the very bucket set being consumed under the very key that was looked up, so the entry lifetime is re-armed on every access (otherwise a busy source's entry expires mid-traffic and it gets a fresh full burst). R2: a fresh bucket set is constructed only on the lookup-miss edge. R3: in the bucket's consume the store that debits availableTokens executes only on an edge implying availableTokens - tokens >= 0 (normal form; a stricter guard is accepted). R4: in the refill routine the credited amount is elapsed/timePerToken with elapsed = now - lastRefresh (dimension tokens = ns/ns), the checkpoint lastRefresh := now (the same now) is stored exactly under the guard credit != 0 computed on the UNCLAMPED sum, together with the credited store, and the cap availableTokens <= burst is applied afterwards on every path; timePerToken is period/average (ns per token). R5: TokenBucketSet.Consume consults every bucket: the consume loop ranges over the bucket map and has no exit other than exhaustion of the range. R7 (fails closed): in ServeHTTP the wrapped handler is reachable only on the nil edge of the error results of the source extractor and of the consume routine, whatever the kind of error. R8: the capacity field is read for NewTTLMap after every option call (no option, also through helpers, is reachable after the read). R9 (= C13.R4): the delay returned for missing tokens is exactly (tokens - available) x timePerToken (rejection is signalled by delay > 0 only). R10: the lifetime handed to TTLMap.Set has a proven lower bound >= 1 (interval arithmetic over its SSA definition; maxPeriod >= 0 is proved as an inductive invariant of all its stores); R4 additionally requires that lastRefresh is stored only by the refill routine and when a bucket is allocated; R6 includes every TTL-map call (get-or-create is one critical section). R11 (= C14.R3): the TTL map frees space only when a new key arrives at capacity, so no live source within the capacity is forgotten.",
+		Explanation: "Structural necessary conditions of the rate bound. R1: in the limiter's consume routine every path from entry to the bucket set's Consume passes a TTLMap.Set of the very bucket set being consumed under the very key that was looked up, so the entry lifetime is re-armed on every access (otherwise a busy source's entry expires mid-traffic and it gets a fresh full burst). R2: a fresh bucket set is constructed only on the lookup-miss edge. R3: in the bucket's consume the store that debits availableTokens executes only on an edge implying availableTokens - tokens >= 0 (normal form; a stricter guard is accepted). R4: in the refill routine the credited amount is elapsed/timePerToken with elapsed = now - lastRefresh (dimension tokens = ns/ns), the checkpoint lastRefresh := now (the same now) is stored exactly under the guard credit != 0 computed on the UNCLAMPED sum, together with the credited store, and the cap availableTokens <= burst is applied afterwards on every path; timePerToken is period/average (ns per token). R5: TokenBucketSet.Consume consults every bucket: the consume loop ranges over the bucket map and has no exit other than exhaustion of the range. R7 (fails closed): in ServeHTTP the wrapped handler is reachable only on the nil edge of the error results of the source extractor and of the consume routine, whatever the kind of error. R8: the capacity field is read for NewTTLMap after every option call (no option, also through helpers, is reachable after the read). R9 (= C13.R4): the delay returned for missing tokens is exactly (tokens - available) x timePerToken (rejection is signalled by delay > 0 only). R10: the lifetime handed to TTLMap.Set has a proven lower bound >= 1 (interval arithmetic over its SSA definition; maxPeriod >= 0 is proved as an inductive invariant of all its stores); R4 additionally requires that lastRefresh is stored only by the refill routine and when a bucket is allocated; R6 includes every TTL-map call (get-or-create is one critical section). R11 (= C14.R3): the TTL map frees space only when a new key arrives at capacity, so no live source within the capacity is forgotten. R10 also: no constant cap in the definition of the entry lifetime. R11 also: renewing a tracked key re-heapifies its expiry on every path of the key-present edge.",
 		NotDecided: []string{
 			"the bound burst + T/(period/average) + 1 itself over every interval of every history: a numerical safety property over unbounded histories",
 			"serialisation of the whole consume under the limiter mutex is C09 (and checked there)",
@@ -25,7 +25,7 @@ func init() {
 	})
 	register(&Property{
 		ID:          "C13",
-		Explanation: "R1: in the bucket's consume, lastConsumed is zeroed before any exit, the debit of X tokens is followed on every path by lastConsumed := X, and rollback adds exactly lastConsumed back and zeroes it. R2: TokenBucketSet.Consume rolls every bucket back (a range loop over the same map with no other exit) exactly on the edge firstErr != nil || maxDelay > 0: the rollback is unreachable once those two true-edges are deleted and reachable from each of them; a delay is folded into the maximum only when neither this bucket nor an earlier one reported an error. R3: a request larger than the burst returns the undefined delay and a non-nil error before any debit. R4: the advertised delay is (tokens - availableTokens) x timePerToken (normal form; dimension ns). R5: the limiter returns the bucket error first and maps delay > 0 to MaxRateError carrying that same delay; the rate error handler answers 429 with X-Retry-In set from exactly that delay's String() (no rounding) before WriteHeader, and delegates any other error to the standard handler. R7 (= C03.R4): the refill credits exactly (now - lastRefresh)/timePerToken, moves the checkpoint together with the credit and nowhere else, and caps at burst.",
+		Explanation: "R1: in the bucket's consume, lastConsumed is zeroed before any exit, the debit of X tokens is followed on every path by lastConsumed := X, and rollback adds exactly lastConsumed back and zeroes it. R2: TokenBucketSet.Consume rolls every bucket back (a range loop over the same map with no other exit) exactly on the edge firstErr != nil || maxDelay > 0: the rollback is unreachable once those two true-edges are deleted and reachable from each of them; a delay is folded into the maximum only when neither this bucket nor an earlier one reported an error. R3: a request larger than the burst returns the undefined delay and a non-nil error before any debit. R4: the advertised delay is (tokens - availableTokens) x timePerToken (normal form; dimension ns). R5: the limiter returns the bucket error first and maps delay > 0 to MaxRateError carrying that same delay; the rate error handler answers 429 with X-Retry-In set from exactly that delay's String() (no rounding) before WriteHeader, and delegates any other error to the standard handler. R7 (= C03.R4): the refill credits exactly (now - lastRefresh)/timePerToken, moves the checkpoint together with the credit and nowhere else, and caps at burst. R2 also: the returned delay derives from the buckets' consume results only (through the maximum fold). R8 (= C09.R1 for the limiter): nothing the limiter hands to the error handler after unlocking is shared limiter state.",
 		NotDecided: []string{
 			"that waiting the advertised delay suffices and that an idle source regains its burst after burst x (period/average): integer-division arithmetic over reachable bucket states",
 			"Retry-After is the delay rounded to whole seconds by design (%.0f); the property's advertised wait is X-Retry-In",
@@ -1068,6 +1068,8 @@ func mutantsC03() []Mutant {
 		{Name: "delay-rounded", File: "ratelimit/bucket.go", Old: "\treturn time.Duration(missingTokens) * tb.timePerToken", New: "\treturn (time.Duration(missingTokens) * tb.timePerToken).Round(clock.Millisecond)", Expect: "C03.R9"},
 		{Name: "ttl-without-plus-one", File: "ratelimit/tokenlimiter.go", Old: "int(bucketSet.maxPeriod/clock.Second)*10+1)", New: "int(bucketSet.maxPeriod/clock.Second)*10)", Expect: "C03.R10"},
 		{Name: "lookup-outside-mutex", File: "ratelimit/tokenlimiter.go", Old: "\ttl.mutex.Lock()\n\tdefer tl.mutex.Unlock()\n\n\teffectiveRates := tl.resolveRates(req)\n\tbucketSetI, exists := tl.bucketSets.Get(source)\n", New: "\teffectiveRates := tl.resolveRates(req)\n\tbucketSetI, exists := tl.bucketSets.Get(source)\n\n\ttl.mutex.Lock()\n\tdefer tl.mutex.Unlock()\n", Expect: "C03.R6"},
+		{Name: "ttlmap-same-value-shortcut", File: "internal/holsterv4/collections/ttlmap.go", Old: "\tif mapEl, ok := m.elements[key]; ok {\n", New: "\tif mapEl, ok := m.elements[key]; ok {\n\t\tif mapEl.value == value {\n\t\t\treturn nil\n\t\t}\n", Expect: "C03.R11"},
+		{Name: "ttl-capped-at-an-hour", File: "ratelimit/tokenlimiter.go", Old: "\tif err := tl.bucketSets.Set(source, bucketSet, int(bucketSet.maxPeriod/clock.Second)*10+1); err != nil {", New: "\tttl := int(bucketSet.maxPeriod/clock.Second)*10 + 1\n\tif ttl > 3600 {\n\t\tttl = 3600\n\t}\n\tif err := tl.bucketSets.Set(source, bucketSet, ttl); err != nil {", Expect: "C03.R10"},
 	}
 }
 
@@ -1086,6 +1088,8 @@ func mutantsC13() []Mutant {
 		{Name: "rollback-keeps-lastconsumed", File: bk, Old: "\ttb.availableTokens += tb.lastConsumed\n\ttb.lastConsumed = 0\n", New: "\ttb.availableTokens += tb.lastConsumed\n", Expect: "C13.R1"},
 		{Name: "status-503", File: tl, Old: "\t\tw.WriteHeader(http.StatusTooManyRequests)", New: "\t\tw.WriteHeader(http.StatusServiceUnavailable)", Expect: "C13.R5"},
 		{Name: "consume-moves-checkpoint", File: "ratelimit/bucket.go", Old: "\ttb.availableTokens -= tokens\n\ttb.lastConsumed = tokens\n", New: "\ttb.availableTokens -= tokens\n\ttb.lastConsumed = tokens\n\ttb.lastRefresh = clock.Now().UTC()\n", Expect: "C13.R7"},
+		{Name: "delay-capped-by-max-period", File: "ratelimit/bucketset.go", Old: "\treturn maxDelay, firstErr\n", New: "\tif maxDelay > tbs.maxPeriod {\n\t\tmaxDelay = tbs.maxPeriod\n\t}\n\treturn maxDelay, firstErr\n", Expect: "C13.R2"},
+		{Name: "rate-error-reused", File: "ratelimit/tokenlimiter.go", Old: "\t\treturn &MaxRateError{Delay: delay}\n", New: "\t\ttl.lastErr.Delay = delay\n\t\treturn &tl.lastErr\n", More: []Edit{{"ratelimit/tokenlimiter.go", "\tcapacity     int\n", "\tcapacity     int\n\tlastErr      MaxRateError\n"}}, Expect: "C13.R8"},
 	}
 }
 
